@@ -1,7 +1,7 @@
 (* PV.C11.Examples — non-vacuity: concrete NON-TRIVIAL inputs meeting the hypotheses / guards of
    every theorem in Properties.v (a 6-variable, 3-block collection with IIV and IOV levels). *)
 From Coq Require Import List Bool PArith Arith Lia QArith Reals Lra.
-From PV Require Import Base.PyData Base.Expr C11.Model C11.NumModel C11.NumProofs C11.Refuted.
+From PV Require Import Base.PyData Base.Expr C11.Model C11.NumModel C11.NumProofs C11.JdModel C11.Ldl C11.Refuted.
 Import ListNotations.
 Local Open Scope nat_scope.
 
@@ -140,7 +140,30 @@ Example dist_getitem_example :
   dget_list nat 0 [va; vd] d = Err KeyError.
 Proof. repeat split; vm_compute; reflexivity. Qed.
 
+(* create_joint_distribution in collection order (guard of cjd_cov_names_follow_template holds) and
+   split_joint_distribution removing exactly the split-away covariance parameters *)
+Example cjd_split_example :
+  let p := [(21%positive, 4); (22%positive, 9); (23%positive, 16)] in
+  let c13 := pair_code 1%positive 3%positive in
+  let joint := [Joint [va; vc] L_IIV [None; None] [[Some 21%positive; Some c13]; [Some c13; Some 23%positive]];
+                Normal vb L_IIV None (Some 22%positive)] in
+  [va; vc] = filter (fun n => memp n [va; vc]) (names cjd_coll) /\
+  create_joint_distribution nat 0 Nat.mul (fun n => n) (fun n => n) 1 (fun _ _ => None) [va; vc] [1%positive; 3%positive] p cjd_coll =
+  Ok (joint, p ++ [(c13, 1 * 16 * 4)]) /\
+  split_joint_distribution nat [va] (p ++ [(c13, 64)]) joint =
+  ([Normal va L_IIV None (Some 21%positive); Normal vc L_IIV None (Some 23%positive); Normal vb L_IIV None (Some 22%positive)], p) /\
+  create_joint_distribution nat 0 Nat.mul (fun n => n) (fun n => n) 1 (fun _ _ => None) [va] [1%positive] p cjd_coll = Err ValueError.
+Proof. repeat split; vm_compute; reflexivity. Qed.
+
 (* ---- numeric side: the hypotheses of the real-number theorems are satisfiable ------------------- *)
+(* the verified PSD checker accepts a singular PSD matrix and a PD one with a negative covariance, and
+   rejects an indefinite and a non-symmetric one *)
+Example ldl_check_example :
+  ldl_check [[1; 1]; [1; 1]]%Q = true /\ ldl_check [[4; -1; 0]; [-1; 9; 2]; [0; 2; 1]]%Q = true /\
+  ldl_check [[0; 0]; [0; 3]]%Q = true /\
+  ldl_check [[1; 2]; [2; 1]]%Q = false /\ ldl_check [[1; 2]; [0; 5]]%Q = false /\ ldl_check [[0; 1]; [1; 0]]%Q = false.
+Proof. repeat split; vm_compute; reflexivity. Qed.
+
 (* repair_ok (hypothesis of canonicalize_valid / replace_valid) is satisfiable: two occasions sharing one
    symbolic block, an oracle that rejects covariances above 1 and repairs to 3*I *)
 Definition Vsh : list (list id) := [[21%positive; 22%positive]; [22%positive; 23%positive]].
